@@ -540,3 +540,42 @@ def c32(tier, seed):
         steps += [w, {"do": "final"}]
         out.append({"name": f"C32-{mode}-{k}", "family": mode, "seed": seed * 61 + k, "frag": 1344, "steps": steps})
     return out
+
+
+def c26(tier, seed):
+    """content filtered reader + control reader on the related topic; bursts, faults that regroup arrivals, late joiners"""
+    rng = random.Random(seed)
+    out = []
+    n = 45 if tier == "quick" else 600
+    names = ["A", "AB", "B", "BA", "C", ""]
+    for k in range(n):
+        field = ["val", "name", "id"][k % 3]
+        op = ["=", "<="][(k // 3) % 2]
+        param = rng.choice(names[:5]) if field == "name" else str(rng.choice([2, 3, 4]))
+        expr = rng.choice([f"{field} {op} %0", f"{field}{op}%0", f" {field}  {op} %0"])
+        family = ["burst", "faults", "latejoin", "gaps", "batched"][k % 5]
+        dur = "TRANSIENT_LOCAL" if family == "latejoin" else "VOLATILE"
+        nw = rng.randint(5, 10)
+        ws = []
+        for j in range(nw):
+            ws.append({"do": "write_f", "id": rng.randint(1, 5), "val": rng.randint(1, 5), "name": rng.choice(names)})
+        readers = {"do": "cft_readers", "part": 1, "qos": q(dur=dur), "expr": expr, "params": [param], "field": field, "op": op}
+        steps = [{"do": "participant"}, {"do": "participant"}, {"do": "cft_writer", "part": 0, "qos": q(dur=dur)}]
+        if family == "latejoin":
+            steps += ws + [{"do": "sleep", "ms": 50}, readers, {"do": "sleep", "ms": 800}]
+        elif family == "batched":
+            # the peer sends several DATA submessages in one RTPS message (held datagrams merged)
+            steps += [readers, {"do": "sleep", "ms": 600}, {"do": "hold", "on": True}] + ws + [{"do": "sleep", "ms": 5}, {"do": "merge_held"}, {"do": "hold", "on": False}]
+        else:
+            steps += [readers, {"do": "sleep", "ms": 600}]
+            if family == "faults":
+                steps.append({"do": "faults", "loss": rng.choice([0.2, 0.4]), "dup": 0.1, "delay": 0.4, "max_delay_ms": rng.choice([20, 80])})
+            for j, w in enumerate(ws):
+                steps.append(w)
+                if family == "gaps":
+                    steps.append({"do": "sleep", "ms": rng.choice([1, 30, 250])})
+                if family != "burst" and rng.random() < 0.2:
+                    steps.append({"do": "take_f"})
+        steps += [{"do": "heal"}, {"do": "quiesce", "ms": 3000}, {"do": "take_f", "final": True}, {"do": "final"}]
+        out.append({"name": f"C26-{family}-{field}{op}-{k}", "family": family, "seed": seed * 67 + k, "frag": 1344, "steps": steps})
+    return out
